@@ -62,14 +62,17 @@ Print Assumptions c13_defaults_exactly_when_unset.
    blank in the last field, ids below 2^32, line below the scanner's limit —
    [wf_user]/[wf_group], decidable) what UserEntry.Write / GroupEntry.Write
    produce with the formats read from the source is parsed back by
-   ReadUserFile / ReadGroupFile to the same entries; a group without members
-   comes back with ONE empty member (strings.Split("", ",")), which writes to
-   the same text.  Hence the file written by mutateAccounts re-reads as the
-   pre-existing entries followed by exactly the configured ones. *)
+   ReadUserFile / ReadGroupFile to the same entries.  Since fix 4aa2cd2 an empty
+   member field is read as NO members, so a group without members comes back as
+   written; the one member list that does not is the single empty name [""]
+   ([norm_members]: it comes back empty; the text is the same).  Hence the file
+   written by mutateAccounts re-reads as the pre-existing entries followed by
+   exactly the configured ones. *)
 Theorem c13_codec_roundtrip :
   (forall es, forallb wf_user es = true -> parse_users (write_users es) = Some es) /\
   (forall es, forallb wf_group es = true -> parse_groups (write_groups es) = Some (List.map norm_group es)) /\
   (forall es, write_groups (List.map norm_group es) = write_groups es) /\
+  (forall e, ge_members e <> [""] -> norm_group e = e) /\
   (forall old users, forallb wf_user old = true -> forallb wf_user (List.map user_to_entry users) = true ->
      parse_users (write_users (old ++ List.map user_to_entry users)) = Some (old ++ List.map user_to_entry users)) /\
   (forall old groups, forallb wf_group old = true -> forallb wf_group (List.map group_to_entry groups) = true ->
@@ -77,6 +80,7 @@ Theorem c13_codec_roundtrip :
        Some (List.map norm_group (old ++ List.map group_to_entry groups))).
 Proof.
   split; [exact parse_write_users|]. split; [exact parse_write_groups|]. split; [exact write_groups_norm|].
+  split; [intros [n p g ms] H; unfold norm_group; cbn in *; rewrite norm_members_id; auto|].
   split; [exact reread_users | exact reread_groups].
 Qed.
 Print Assumptions c13_codec_roundtrip.
